@@ -31,6 +31,28 @@
         if N > tail { crate::vcover!(enc != orig); }
     }
 
+    /// C07.bcj.code (call-splitting homomorphism of a *_code filter, the way BCJReader drives it): filtering an N-byte
+    /// stream in one call equals filtering its first k bytes, then re-presenting the unconverted tail followed by the
+    /// rest: same output bytes, same final position, same carried state (x86 `prev_mask`), in both directions.
+    pub(crate) fn bcj_split_homomorphism<const N: usize>(mk: fn(usize, bool) -> BCJFilter, align: usize, k: usize, enc: bool) {
+        let orig: [u8; N] = vk::any();
+        // align == 1 (x86): the carried state does not depend on the position; a fixed start keeps the harness affordable
+        let start: usize = if align == 1 { 0x1000 } else { vk::any() };
+        vk::assume(start < (1usize << 40) && start % align == 0);
+        let mut one = mk(start, enc);
+        let mut a = orig;
+        let r = one.code(&mut a);
+        let mut two = mk(start, enc);
+        let mut b = orig;
+        let r1 = two.code(&mut b[..k]);
+        assert!(r1 <= k);
+        let r2 = two.code(&mut b[r1..]);
+        assert!(r1 + r2 == r);
+        assert!(one.pos == two.pos && one.prev_mask == two.prev_mask);
+        let mut i = 0;
+        while i < N { assert!(a[i] == b[i]); i += 1; }
+    }
+
     // ---------------------------------------------------------------- BCJReader / BCJWriter state machines
 
     /// C07.bcj.reader / C05.filter.r / C06.bcjr: the bytes BCJReader yields do not depend on how the caller splits its
